@@ -20,9 +20,10 @@ import (
 )
 
 type replayCase struct {
-	Kind string          `json:"kind"`
+	Kind string           `json:"kind"`
 	Sc   *sysrun.Scenario `json:"scenario,omitempty"`
-	DC   *dconc.DCase    `json:"dcase,omitempty"`
+	DC   *dconc.DCase     `json:"dcase,omitempty"`
+	KC   *keyCase         `json:"keycase,omitempty"`
 }
 
 func coqLabels(ls model.LabelSet) string {
@@ -43,6 +44,7 @@ func TestCheck(t *testing.T) {
 	runA := vh.NewRun(env, "AM.Run.C06Run")
 	var scs []sysrun.Scenario
 	var dcs []dconc.DCase
+	var kcs []keyCase
 	if env.Replay != "" {
 		var rc replayCase
 		if err := vh.LoadReplayCase(env.Replay, &rc); err != nil {
@@ -54,11 +56,32 @@ func TestCheck(t *testing.T) {
 		if rc.DC != nil {
 			dcs = append(dcs, *rc.DC)
 		}
+		if rc.KC != nil {
+			kcs = append(kcs, *rc.KC)
+		}
 	} else {
+		rk := vh.NewRand(env.Seed + 29)
+		for i := 0; i < env.N(60, 5); i++ {
+			kcs = append(kcs, genKeyCase(rk.Fork()))
+		}
 		r := vh.NewRand(env.Seed)
 		n := env.N(160, 8)
 		for i := 0; i < n; i++ {
-			scs = append(scs, sysrun.Gen(r.Fork(), sysrun.GenOpts{MaxOps: 10, Routes: true, MultiInt: i%3 == 0, Faults: i%4 == 0, Flap: i%5 == 1}))
+			sc := sysrun.Gen(r.Fork(), sysrun.GenOpts{MaxOps: 10, Routes: true, MultiInt: i%3 == 0, Faults: i%4 == 0, Flap: i%5 == 1})
+			if i%8 == 6 {
+				// grouping labels that differ but concatenate to the same text
+				sysrun.Collide(r.Fork(), &sc)
+			}
+			scs = append(scs, sc)
+		}
+	}
+	// ---- (d) group keys are a pure function of the configuration text ----
+	for i := range kcs {
+		ok, what, nr := runKeyCase(kcs[i])
+		runA.CountN("key_purity", "configurations loaded 12 times", 1)
+		runA.CountN("key_purity", "routes compared", nr)
+		if !ok {
+			runA.Violate("route-key-differs-between-loads", what, replayCase{Kind: "keycase", KC: &kcs[i]})
 		}
 	}
 	// ---- (a) + (b) ----
